@@ -28,6 +28,10 @@ CHECKS = {
    text="TLC model-checks spec/Generic.tla (Independence and WritesDoNotRetype as action properties, ExactlyOwnType) and prints its state graph; every sequence of up to 3 (quick) / 4 (thorough) instantiations and typed member writes over Box<T> and Pair<K,V> x {int,string,array,class} is replayed as a script and each write's acceptance compared with the reference verdict; wrong verdicts are classified by the deviation layer (first-instantiation-wins: fixed; params-unchecked: known finding); seeded sequences up to length 6 from TLC -simulate.",
    note="Trusted: acceptance is observed as completion vs. catchable Throwable; fixture classes as listed in the evidence assumptions.",
    tech="TLA+ spec (Generic.tla, reference + deviation layer) checked by TLC; state-graph paths replayed as scripts"),
+ "C08": dict(cat="model_checking", ref="§5 C08",
+   text="TLC enumerates every hierarchy within the bound as an initial state of spec/Hierarchy.tla (classes with single inheritance, interfaces with multiple extends, arbitrary implements edges; definer sets; method provisions) and checks the reference relation (preorder, interfaces inherited and closed upward), that the transcribed mechanism of data/type_class.go computes the same relation, and the dispatch/parent/like operators; each hierarchy is replayed as a script printing the instanceof / typed-parameter / catch tables, who()/self::/static::/self::class/static::class/parent::/chained parent:: results and the like verdicts.",
+   note="Trusted: fixture shapes listed in the evidence assumptions; quick samples large families, thorough enumerates them completely (3 classes + 3 interfaces, 4 classes + 2 interfaces, 5-class dispatch chains).",
+   tech="TLA+ spec (Hierarchy.tla: reference relation + transcribed mechanism) checked by TLC over all bounded hierarchies; each replayed as a script"),
 }
 NOT_YET = "check not built yet in this round (planned: TLA+ spec + conformance binding, see DESIGN.md §5)"
 def main():
